@@ -28,8 +28,12 @@ class NbConfig:
     def __init__(self, np_, lp="eg", metric="cityblock", radius=(2, 1), k=2, n_tables=2, n_dims=2, n_clusters=2,
                  minibatch=False, tree_params=None, labelmap="int", unit=1, dims=2, grid=3, seed=11, n_jobs=1,
                  backend=None, init_bin="none", alpha=1.25, tau=2, epsilon=0.0, no_nhood=None, arms=("a", "b"),
-                 extra_labels=("c",)):
+                 extra_labels=("c",), ctx_unit=1, int_first=False):
         self.np = np_
+        # contexts are grid points times ctx_unit; the specification keeps the integer grid and scales the radius.
+        # int_first: the first fit gets whole-number contexts as an INTEGER array, later rows are fractional floats
+        self.ctx_unit = Fraction(ctx_unit)
+        self.int_first = int_first
         self.lp = lp
         self.metric = metric
         self.radius = radius
@@ -58,7 +62,17 @@ class NbConfig:
 
     def group(self):
         """Everything that is a TLC constant: traces with equal groups are validated in one TLC run."""
-        return (self.np, self.lp, self.metric, self.radius, self.k, self.n_tables, 2 ** self.n_dims)
+        return (self.np, self.lp, self.metric, self.spec_radius(), self.k, self.n_tables, 2 ** self.n_dims)
+
+    def cx(self, x):
+        """Grid point -> the coordinates passed to the library."""
+        u = float(self.ctx_unit)
+        return [float(v) * u for v in x]
+
+    def spec_radius(self):
+        """The radius in grid units: distances scale with ctx_unit (squared for sqeuclidean)."""
+        r = Fraction(*self.radius) / (self.ctx_unit ** 2 if self.metric == "sqeuclidean" else self.ctx_unit)
+        return (r.numerator, r.denominator)
 
     def describe(self):
         return {"np": self.np, "lp": self.lp, "metric": self.metric, "radius": list(self.radius), "k": self.k,
@@ -66,7 +80,8 @@ class NbConfig:
                 "minibatch": self.minibatch, "tree_parameters": self.tree_params, "labels": self.labelmap,
                 "unit": str(self.unit), "dims": self.dims, "seed": self.seed, "n_jobs": self.n_jobs,
                 "backend": self.backend, "bin": self.init_bin, "alpha": self.alpha, "tau": self.tau,
-                "epsilon": self.epsilon, "no_nhood": self.no_nhood}
+                "epsilon": self.epsilon, "no_nhood": self.no_nhood, "ctx_unit": str(self.ctx_unit),
+                "int_first": self.int_first}
 
     def neighborhood(self):
         from mabwiser.mab import NeighborhoodPolicy as NP
@@ -131,24 +146,24 @@ class Recorder:
                 arm = cfg.cf.lm[label]
                 tree = imp.arm_to_tree.get(arm)
                 if tree is not None and hasattr(tree, "tree_"):
-                    out.append(int(tree.apply(np.asarray([x], dtype=float))[0]))
+                    out.append(int(tree.apply(np.asarray([cfg.cx(x)], dtype=float))[0]))
                 else:
                     out.append(0)
             return out
         return [0 for _ in xs]
 
-    def geo_query(self, x):
+    def geo_query(self, x, real=False):
         cfg, imp = self.cfg, self.mab._imp
         if cfg.np == "lsh":
             return [signature(x, imp.table_to_plane[k]) for k in range(cfg.n_tables)]
         if cfg.np == "clusters":
-            return int(imp.kmeans.predict(np.asarray([x], dtype=float))[0]) + 1
+            return int(imp.kmeans.predict(np.asarray([x if real else cfg.cx(x)], dtype=float))[0]) + 1
         if cfg.np == "tree":
             out = {}
             for label in self.arms:
                 tree = imp.arm_to_tree.get(cfg.cf.lm[label])
                 if tree is not None and hasattr(tree, "tree_") and imp.arm_to_leaf_to_rewards[cfg.cf.lm[label]]:
-                    out[label] = int(tree.apply(np.asarray([x], dtype=float))[0])
+                    out[label] = int(tree.apply(np.asarray([x if real else cfg.cx(x)], dtype=float))[0])
                 else:
                     out[label] = 0
             return out
@@ -163,8 +178,9 @@ class Recorder:
                 post["n"] = -1
         if post["n"] >= 0 and cfg.np in ("radius", "knearest", "lsh", "clusters") and getattr(imp, "decisions", None) is not None \
                 and post["n"] == len(self.rows):
-            # the stored observations themselves: arm, converted reward (units), context of every row
-            post["stored"] = [[cfg.cf.spec_label(a.item() if hasattr(a, "item") else a), self.units(r), [int(v) if float(v) == int(v) else [int(round(v * 1000)), 1000] for v in x]]
+            # the stored observations themselves: arm, converted reward (units), context of every row (grid units)
+            inv = float(1 / cfg.ctx_unit)
+            post["stored"] = [[cfg.cf.spec_label(a.item() if hasattr(a, "item") else a), self.units(r), [int(v) if float(v) == int(v) else [int(round(v * 1000)), 1000] for v in (float(w) * inv for w in x)]]
                               for a, r, x in zip(imp.decisions, imp.rewards, imp.contexts)]
         if cfg.np == "lsh":
             post["tables"] = [[[int(i) + 1 for i in imp.table_to_hash_to_index[k].get(h, [])]
@@ -193,7 +209,9 @@ class Recorder:
         cfg = self.cfg
         decisions = np.asarray([cfg.cf.lm[a] for a, _, _ in batch])
         rewards = np.asarray([cfg.cf.reward(r) for _, r, _ in batch])
-        contexts = np.asarray([x for _, _, x in batch], dtype=float)
+        contexts = np.asarray([cfg.cx(x) for _, _, x in batch], dtype=float)
+        if cfg.int_first and op == "fit" and np.all(contexts == np.floor(contexts)):
+            contexts = contexts.astype(int)
         self.calls.append({"op": op, "batch": [[a, r, list(x)] for a, r, x in batch]})
         try:
             getattr(self.mab, op)(decisions, rewards, contexts)
@@ -248,8 +266,8 @@ class Recorder:
         twin2 = copy.deepcopy(self.mab)
         gen = copy.deepcopy(self.mab._rng)
         seed = int(gen.randint(INT32_MAX, size=1)[0])
-        qg = self.geo_query(x if real is None else real)
-        ctx = [list(map(float, x if real is None else real))]
+        qg = self.geo_query(x) if real is None else self.geo_query(real, real=True)
+        ctx = [cfg.cx(x) if real is None else list(map(float, real))]
         try:
             result = self.mab.predict_expectations(ctx)
         except Exception as error:  # noqa
@@ -305,7 +323,7 @@ class Recorder:
         twin = copy.deepcopy(self.mab)
         twin2 = copy.deepcopy(self.mab)
         seeds = [int(s) for s in copy.deepcopy(self.mab._rng).randint(INT32_MAX, size=m)]
-        ctx = [list(map(float, x)) for x in xs]
+        ctx = [cfg.cx(x) for x in xs]
         where = {"event": len(self.events) + 1, "rows": [list(x) for x in xs], "tags": []}
         try:
             result = self.mab.predict_expectations(ctx)
@@ -348,11 +366,11 @@ class Recorder:
         cfg = self.cfg
         work = copy.deepcopy(mab)
         out = []
-        pts = [list(map(float, r[2])) for r in self.rows[:3]] + [[float(cfg.grid + 1)] * cfg.dims]
+        pts = [cfg.cx(r[2]) for r in self.rows[:3]] + [cfg.cx([cfg.grid + 1] * cfg.dims)]
         def train(op, rows):
             d = np.asarray([cfg.cf.lm[a] for a, _, _ in rows])
             r = np.asarray([cfg.cf.reward(x) for _, x, _ in rows])
-            c = np.asarray([x for _, _, x in rows], dtype=float)
+            c = np.asarray([cfg.cx(x) for _, _, x in rows], dtype=float)
             getattr(work, op)(d, r, c)
         try:
             out.append(work.predict_expectations(pts))
@@ -388,8 +406,9 @@ def _short(v):
     return text if len(text) < 200 else text[:200] + "..."
 
 
-def grid_points(cfg, rnd, n):
-    return [tuple(rnd.randrange(cfg.grid) for _ in range(cfg.dims)) for _ in range(n)]
+def grid_points(cfg, rnd, n, whole=False):
+    step = int(1 / cfg.ctx_unit) if whole else 1          # whole: coordinates that are whole numbers after scaling
+    return [tuple(step * rnd.randrange((cfg.grid + step - 1) // step) for _ in range(cfg.dims)) for _ in range(n)]
 
 
 def scenario(cfg, rnd, steps=8):
@@ -398,16 +417,16 @@ def scenario(cfg, rnd, steps=8):
     labels = list(cfg.arms)
     rewards = [0, 1] if (cfg.lp == "ts" and cfg.init_bin == "none") else [0, 1, 2, 3]
 
-    def batch(n, force=None):
+    def batch(n, force=None, whole=False):
         rows = []
         for i in range(n):
             pool = [a for a in rec.arms] or labels
             a = force[i] if force and i < len(force) else rnd.choice(pool)
-            rows.append((a, rnd.choice(rewards), grid_points(cfg, rnd, 1)[0]))
+            rows.append((a, rnd.choice(rewards), grid_points(cfg, rnd, 1, whole)[0]))
         return rows
 
     need = max(cfg.k if cfg.np == "knearest" else 1, cfg.n_clusters if cfg.np == "clusters" else 1)
-    first = batch(max(need, rnd.randrange(3, 8)))
+    first = batch(max(need, rnd.randrange(3, 8)), whole=cfg.int_first)
     if cfg.np == "clusters":
         # k-means needs at least n_clusters distinct points to be meaningful
         pts = list({r[2] for r in first})
@@ -455,7 +474,7 @@ def scenario(cfg, rnd, steps=8):
 # ---------------------------------------------------------------------------
 def constants(cfg):
     return dict(LP=cfg.lp, Thr={"a": 1, "b": 2, "c": 3, "d": 1}, Dev=set(), NP=cfg.np, Labels={"a", "b", "c", "d"},
-                InitArms=list(cfg.arms), Rewards={0, 1}, Ctx={(0,)}, Metric=cfg.metric, Radius=tuple(cfg.radius), K=cfg.k,
+                InitArms=list(cfg.arms), Rewards={0, 1}, Ctx={(0,)}, Metric=cfg.metric, Radius=tuple(cfg.spec_radius()), K=cfg.k,
                 NTables=cfg.n_tables, NSig=2 ** cfg.n_dims, NCells=2, MaxBatch=1, MaxHist=1000000, MaxDepth=1000000,
                 Ops={"fit", "partial_fit", "add_arm", "remove_arm", "predict", "predict_expectations"},
                 InitBin="none", NewBins={"keep", "thr", "flip", "ge2"})
@@ -512,7 +531,7 @@ def library_policy_on(cfg, twin, sel, q, seed):
     lp.rng = create_rng(seed)
     idx = np.asarray([i - 1 for i in sel], dtype=int)
     lp.fit(imp.decisions[idx], imp.rewards[idx], imp.contexts[idx])
-    return lp.predict_expectations(np.asarray([q], dtype=float))
+    return lp.predict_expectations(np.asarray([cfg.cx(q)], dtype=float))
 
 
 def compare_queries(cfg, rec, tid, oracles):
